@@ -432,6 +432,11 @@ pub struct AttrCase {
 }
 
 fn lookup(ty: &str, label: &str) -> Variant {
+    // padding entry of a given length (position sweeps)
+    if ty == "Pad" {
+        let n: usize = label.parse().expect("pad length");
+        return Variant::BinaryString(BinaryString::from((0..n).map(|i| (i % 251) as u8).collect::<Vec<u8>>()));
+    }
     let vt = attr_types().into_iter().find(|t| crate::vals::type_name(*t) == ty).expect("attr type");
     alphabet(vt, Codec::Attributes, true)
         .into_iter()
@@ -761,6 +766,17 @@ pub fn cases(tier: Tier) -> Vec<AttrCase> {
             out.push(AttrCase { entries });
         }
     }
+    // position sweep: every representative value starting at every offset in a window around
+    // 4 KiB, 8 KiB, 16 KiB, 32 KiB and 64 KiB (a padding entry of the right length sorts first)
+    for centre in [4096usize, 8192, 16384, 32768, 65536] {
+        for (t, v) in &reps {
+            // blob = count(4) + name "a"(4+1) + type(1) + len(4) + pad + name "b"(4+1) + type(1) + value
+            for start in (centre - 12)..=(centre + 4) {
+                let pad = start - 20;
+                out.push(AttrCase { entries: vec![("a".to_owned(), "Pad".to_owned(), pad.to_string()), ("b".to_owned(), t.clone(), v.label.clone())] });
+            }
+        }
+    }
     // three entries over the representatives
     let step = 1;
     for (i, (t1, v1)) in reps.iter().enumerate().step_by(step) {
@@ -815,7 +831,7 @@ pub fn check(run: &Run) -> Value {
         "doc_vectors_reproduced_by_spec_codec": vectors,
         "samples": total.samples.iter().map(|s| serde_json::from_str::<Value>(s).unwrap()).collect::<Vec<_>>(),
         "exhaustive": true,
-        "rule": "every attribute map of the bounded enumeration (0 entries; 1 entry: 6 names (empty, 1 byte, non-ASCII, 40 bytes, 1025 bytes, 1400 bytes) x every alphabet value (incl. 64 KiB / 200 KB strings) of the 19 supported types; 2 entries: every value next to 2 representatives per type; 3 entries over representatives) is (1) encoded and decoded by rbx_types, (2) decoded by an independent decoder written from docs/attributes.md, (3) re-encoded by an independent encoder and decoded by rbx_types; maps of 3..5000 entries (counts around powers of two, four naming styles, value types cycling); 0/1-entry maps and those of >= 16 entries additionally travel through a binary and an XML file as the Attributes property",
+        "rule": "every attribute map of the bounded enumeration (0 entries; 1 entry: 6 names (empty, 1 byte, non-ASCII, 40 bytes, 1025 bytes, 1400 bytes) x every alphabet value (incl. 64 KiB / 200 KB strings) of the 19 supported types; 2 entries: every value next to 2 representatives per type; 3 entries over representatives) is (1) encoded and decoded by rbx_types, (2) decoded by an independent decoder written from docs/attributes.md, (3) re-encoded by an independent encoder and decoded by rbx_types; every representative value at every start offset in windows around 4, 8, 16, 32 and 64 KiB; maps of 3..5000 entries (counts around powers of two, four naming styles, value types cycling); 0/1-entry maps and those of >= 16 entries additionally travel through a binary and an XML file as the Attributes property",
     })
 }
 
